@@ -337,7 +337,7 @@ class trie {
 
         if (itr->is_beg) {
             itr->is_beg = false;
-            if (m_terms[itr->m_npos]) {
+            if (!m_bcvec.is_leaf(itr->m_npos) && m_terms[itr->m_npos]) {
                 itr->m_id = npos_to_id(itr->m_npos);
                 return true;
             }
